@@ -163,3 +163,27 @@ Theorem C07_tdevice_constructor_guards : forall n s e tr text c,
   TDevice_init_accepts (A:=R) n s e tr text c = true ->
   List.length text = n /\ (forall i, (i < n)%nat -> 0 <= pnth c i) /\ 0 <= s <= 1 /\ e <> 0 /\ 0 <= tr.
 Proof. exact tdevice_init_facts. Qed.
+
+(* ---- "its marginal cost is monotone along every segment" (Proofs/Total.v, Proofs/TotalConvex.v; any length) ----
+   dir_at F g x: the total derivative of F at x is <g, .> (C01_partials_and_continuity_give_the_total_derivative). *)
+From DK.Proofs Require Import Total TotalLeaf TotalConvex.
+
+Theorem C07_marginal_cost_monotone : forall (B : list R -> Prop) (F : list R -> R) (x y gx gy : list R),
+  convex_on B F -> B x -> B y -> List.length y = List.length x -> List.length gx = List.length x -> List.length gy = List.length x ->
+  dir_at F gx x -> dir_at F gy y -> 0 <= dot (vsub gy gx) (vsub y x).
+Proof. exact convex_gradient_monotone. Qed.
+
+Theorem C07_marginal_cost_monotone_along_segment : forall (B : list R -> Prop) (F : list R -> R) (G : list R -> list R) (x y : list R),
+  convex_on B F -> List.length y = List.length x ->
+  (forall t, 0 <= t <= 1 -> B (seg x y t) /\ List.length (G (seg x y t)) = List.length x /\ dir_at F (G (seg x y t)) (seg x y t)) ->
+  forall t1 t2, 0 <= t1 <= t2 -> t2 <= 1 ->
+  dot (G (seg x y t1)) (vsub y x) <= dot (G (seg x y t2)) (vsub y x).
+Proof. exact convex_marginal_monotone_along_segment. Qed.
+
+(* instance: every class with an everywhere continuous marginal cost (Device, PV, CDevice, one-range CDevice2, IDevice with
+   natural exponents, IDevice2, GDevice), given the convexity the theorems above establish for it *)
+Theorem C07_smooth_classes_marginal_cost_monotone : forall n b cb k (p x y : list R), List.length p = n -> List.length b = n ->
+  smooth_kind k cb n ->
+  convex_on (in_box_R b) (fun s => leaf_cost (Build_leafdev n b cb k) s p) -> in_box_R b x -> in_box_R b y ->
+  0 <= dot (vsub (leaf_deriv (Build_leafdev n b cb k) y p) (leaf_deriv (Build_leafdev n b cb k) x p)) (vsub y x).
+Proof. exact smooth_convex_class_monotone. Qed.
